@@ -462,7 +462,8 @@ type flushScn struct {
 	Second    bool        `json:"second_flusher,omitempty"`
 	// SecondN > 0: the concurrent caller uses Write with SecondN bytes of its own (0xEE) instead of a pure
 	// Flush, and only while a call of the first flusher is in progress: it must be rejected without a trace.
-	SecondN int `json:"second_write,omitempty"`
+	SecondN     int `json:"second_write,omitempty"`
+	SecondTries int `json:"second_tries,omitempty"` // calls of the concurrent caller (default 2)
 	Fires   int `json:"fires"`
 }
 
@@ -522,6 +523,23 @@ func genFlushScn(t *rapid.T, prop string) flushScn {
 		}
 		if rapid.Bool().Draw(t, "secondWrite") {
 			s.SecondN = rapid.IntRange(1, 300).Draw(t, "secondN")
+		}
+		if rapid.Bool().Draw(t, "takeover") {
+			// the family in which a close meets two flushers: the first one certainly parked (one payload well
+			// above the socket buffer, a peer that reads little or nothing), the other one retrying, and a close
+			sb := s.SndBuf
+			if sb == 0 {
+				sb = 8192
+				s.SndBuf = 8192
+			}
+			s.Calls = []flushCall{{API: rapid.SampledFrom([]string{"flush", "write", "binary"}).Draw(t, "tapi"), N: rapid.IntRange(3*sb, 12*sb).Draw(t, "tn"), Timeout: "none"}}
+			s.Drain = nil
+			if rapid.Bool().Draw(t, "tdrain") {
+				s.Drain = []int{rapid.IntRange(1, sb).Draw(t, "tdrainN")}
+			}
+			s.UserClose = rapid.Bool().Draw(t, "tuser")
+			s.PeerClose = !s.UserClose
+			s.SecondTries = 4
 		}
 	}
 	return s
@@ -724,7 +742,11 @@ func runFlush(t *rapid.T, s flushScn, replay []vs.Step) *flushOutcome {
 	if s.Second {
 		w.s.Go("second", false, func() {
 			vs.Yield(-54)
-			for i := 0; i < 2; i++ {
+			tries := 2
+			if s.SecondTries > 0 {
+				tries = s.SecondTries
+			}
+			for i := 0; i < tries; i++ {
 				if s.SecondN > 0 {
 					done := false
 					vs.WaitFor(-57, func() bool { done = flusher.Done(); return inCall || done })
